@@ -325,6 +325,8 @@ def verify_function(contract: Contract, specs=None, variant=None) -> FunctionRep
                 for gname_ in ex.ghost_names():
                     extra[gname_] = s2.ghost.get(gname_, Val("l", sym.EMPTY_LIST))
                 for cl in contract.raises_:
+                    if getattr(cl, "only_exit", None) and not base.startswith(cl.only_exit):
+                        continue  # e.g. only_exit="raise": the clause is about the function's own `raise` statements, not exceptions of its callees
                     g = ex.eval_clause(cl, _post_bound(cl, params_bound, extra, s2, region_locals), s2, ex.entry_pre, extra)
                     rep.obligations.append(Obligation(f"{site}::raises:{cl.name}@{exit_id}", "raises", list(s2.pc), g, dict(info, clause=cl.name, props=cl.props), aux=cl.aux))
         all_pcs = [z3.And(*o.state.pc) if o.state.pc else z3.BoolVal(True) for o in outs]
@@ -475,10 +477,80 @@ def _solve(idx_timeout):
                 res["smt2"] = s.to_smt2()
             except Exception:
                 pass
+            if ob.expect == "unsat":
+                # quantified facts defeated the solver: retry with the universally quantified conjuncts replaced by their instances at the goal's
+                # skolem constants and the string literals of the query.  unsat of the weaker query is a proof; sat only yields a CANDIDATE input
+                # (the dropped facts may exclude it) which counts for nothing unless it replays on the real code.
+                wf = _instantiated(f)
+                if wf is not None:
+                    s2 = z3.Solver()
+                    s2.set("timeout", max(500, int(timeout_ms * 0.5)))
+                    s2.add(wf)
+                    r2 = s2.check()
+                    if r2 == z3.unsat:
+                        res.update(verdict="unsat", backend="z3-5.1.0(py, quantifier instances)")
+                    elif r2 == z3.sat and want_model:
+                        m = s2.model()
+                        vals = {}
+                        for name, c in _consts_of(wf).items():
+                            if "!" in name and not name.startswith("ret_"):
+                                continue
+                            try:
+                                vals[name] = _jsonable(sym.decode_any(m, c))
+                            except Exception as e:  # noqa
+                                vals[name] = f"<undecodable: {e}>"
+                        vals["__apps__"] = {}
+                        res.update(verdict="sat", backend="z3-5.1.0(py, quantifier instances)", model=vals, candidate=True)
+                    res["time_s"] = round(time.time() - t0, 4)
     except Exception as e:  # noqa
         res["verdict"] = "error"
         res["reason"] = f"{type(e).__name__}: {e}\n{traceback.format_exc()[-800:]}"
     return res
+
+
+def _instantiated(f, max_terms=10):
+    """f with its top-level universally quantified conjuncts (one bound variable) replaced by instances, negated universals skolemised; None when
+    f has no such conjunct"""
+    conj = []
+
+    def flat(e):
+        if z3.is_and(e):
+            for c_ in e.children():
+                flat(c_)
+        else:
+            conj.append(e)
+    flat(f)
+    univ, ground, sk = [], [], []
+    for c_ in conj:
+        if z3.is_quantifier(c_) and c_.is_forall() and c_.num_vars() == 1:
+            univ.append(c_)
+        elif z3.is_not(c_) and z3.is_quantifier(c_.arg(0)) and c_.arg(0).is_forall():
+            q = c_.arg(0)
+            ks = [z3.FreshConst(q.var_sort(i), "sk") for i in range(q.num_vars())]
+            sk.extend(ks)
+            ground.append(z3.Not(z3.substitute_vars(q.body(), *reversed(ks))))
+        else:
+            ground.append(c_)
+    if not univ:
+        return None
+    lits = {}
+
+    def walk(e, depth=0):
+        if depth > 60 or len(lits) > 40:
+            return
+        if z3.is_string_value(e):
+            lits[e.as_string()] = e
+        for ch in (e.children() if z3.is_app(e) else []):
+            walk(ch, depth + 1)
+    for g in ground + [q.body() for q in univ]:
+        walk(g)
+    out = list(ground)
+    for q in univ:
+        srt = q.var_sort(0)
+        terms = [k for k in sk if k.sort() == srt] + [v for v in list(lits.values())[:max_terms] if v.sort() == srt]
+        for t_ in terms:
+            out.append(z3.substitute_vars(q.body(), t_))
+    return z3.And(*out)
 
 
 def _jsonable(v):
